@@ -3,6 +3,7 @@
 set -e
 cd /verif
 git checkout --ours MANIFEST.json lean/Fs.lean lean/Main.lean 2>/dev/null || true
+for f in $(git diff --name-only --diff-filter=U | grep "^evidence/"); do git checkout --theirs "$f"; done
 python3 harness/gen_manifest.py
 python3 - <<'PY'
 import re,subprocess
